@@ -123,6 +123,27 @@ func TestGovcReplay(t *testing.T) {
 			}
 		}
 	}
+	// a window whose only / last sample is (t=0, v=0) in every aggregate
+	zero := func(n int) storage.ChunkSeries {
+		var chks [5]chunkenc.Chunk
+		for at := downsample.AggrCount; at <= downsample.AggrCounter; at++ {
+			c := chunkenc.NewXORChunk()
+			app, _ := c.Appender()
+			for i := 0; i < n; i++ {
+				app.Append(int64(i-n+1)*step, 0)
+			}
+			if at == downsample.AggrCounter {
+				app.Append(0, 0)
+			}
+			chks[at] = c
+		}
+		m := chunks.Meta{MinTime: int64(1-n) * step, MaxTime: 0, Chunk: downsample.EncodeAggrChunk(chks)}
+		return &storage.ChunkSeriesEntry{Lset: labels.FromStrings("a", "b"), ChunkIteratorFn: func(chunks.Iterator) chunks.Iterator {
+			return storage.NewListChunkSeriesIterator(m)
+		}}
+	}
+	c40run("two overlapping chunks whose samples (ending at t=0) all have value 0", zero(3), zero(2), &msgs)
+	c40run("two overlapping single-sample chunks at t=0 with value 0", zero(1), zero(1), &msgs)
 	if len(msgs) > 0 {
 		fmt.Println("REPLAY: reproduced:", strings.Join(msgs, "; "))
 		t.Fail()
